@@ -4,6 +4,7 @@ import (
 	"encoding/json"
 	"flag"
 	"fmt"
+	"go/types"
 	"os"
 	"path/filepath"
 	"sort"
@@ -70,7 +71,7 @@ func load(pkgPaths []string) (*Loaded, error) {
 	if cerr != nil {
 		return nil, cerr
 	}
-	for fn := range ssautil.AllFunctions(prog) {
+	for fn := range allFunctions(prog) {
 		if fn.Pkg == nil && fn.Parent() == nil && fn.Origin() == nil {
 			continue
 		}
@@ -86,8 +87,56 @@ func load(pkgPaths []string) (*Loaded, error) {
 	return l, nil
 }
 
+var allFuncsCache = map[*ssa.Program]map[*ssa.Function]bool{}
+
+// allFunctions enumerates every function and method declared in the loaded
+// packages (including methods of types that are never converted to an
+// interface, which ssautil.AllFunctions omits) and their anonymous functions.
+func allFunctions(prog *ssa.Program) map[*ssa.Function]bool {
+	if m, ok := allFuncsCache[prog]; ok {
+		return m
+	}
+	out := map[*ssa.Function]bool{}
+	var add func(fn *ssa.Function)
+	add = func(fn *ssa.Function) {
+		if fn == nil || out[fn] {
+			return
+		}
+		out[fn] = true
+		for _, a := range fn.AnonFuncs {
+			add(a)
+		}
+	}
+	for fn := range ssautil.AllFunctions(prog) {
+		add(fn)
+	}
+	for _, p := range prog.AllPackages() {
+		for _, m := range p.Members {
+			switch m := m.(type) {
+			case *ssa.Function:
+				add(m)
+			case *ssa.Type:
+				if n, ok := m.Type().(*types.Named); ok && n.TypeParams().Len() > 0 {
+					continue
+				}
+				for _, t := range []types.Type{m.Type(), types.NewPointer(m.Type())} {
+					ms := prog.MethodSets.MethodSet(t)
+					for i := 0; i < ms.Len(); i++ {
+						if _, isIface := m.Type().Underlying().(*types.Interface); isIface {
+							continue
+						}
+						add(prog.MethodValue(ms.At(i)))
+					}
+				}
+			}
+		}
+	}
+	allFuncsCache[prog] = out
+	return out
+}
+
 func (l *Loaded) findFunc(name string) *ssa.Function {
-	for fn := range ssautil.AllFunctions(l.prog) {
+	for fn := range allFunctions(l.prog) {
 		if fn.String() == name || shortFn(fn) == name || (fn.Pkg != nil && fn.Name() == name && inPkgs(l.pkgs, fn.Pkg.Pkg.Path())) {
 			return fn
 		}
@@ -291,7 +340,7 @@ func cmdList(args []string) int {
 		return 2
 	}
 	var fns []*ssa.Function
-	for fn := range ssautil.AllFunctions(l.prog) {
+	for fn := range allFunctions(l.prog) {
 		if fn.Pkg == nil && fn.Parent() == nil {
 			continue
 		}
